@@ -1,0 +1,83 @@
+//go:build verif
+
+// Contracts (machine-checked by /verif/bin/govc).  This file contains only
+// comments: with the build tag off it is not part of the build, with the tag
+// on it adds no code.
+
+package security
+
+//@ func (*Count).Get
+//@ prop C06 C10
+//@ ensures range: result < 1<<24
+//@ ensures value: result == old(counter.count)&0xffffff
+//@ ensures stable: counter.count&0xffffff == result
+//@ assigns counter
+
+//@ func (*Count).AddOne
+//@ prop C06
+//@ ensures next: counter.Get() == (old(counter.count&0xffffff)+1)&0xffffff
+//@ ensures range: counter.Get() < 1<<24
+//@ assigns counter
+
+//@ func (*Count).SQN
+//@ prop C06 C10
+//@ ensures value: result == uint8(counter.count&0xff)
+//@ ensures low8: uint32(result) == counter.Get()&0xff
+
+//@ func (*Count).Overflow
+//@ prop C06 C10
+//@ ensures value: result == uint16((counter.count>>8)&0xffff)
+//@ ensures high16: uint32(result) == counter.Get()>>8
+
+//@ func (*Count).SetSQN
+//@ prop C06 C10
+//@ ensures sqn: counter.SQN() == sqn
+//@ ensures overflow: counter.Overflow() == old(uint16((counter.count>>8)&0xffff))
+//@ ensures get: counter.Get() == old(counter.count&0xffff00)|uint32(sqn)
+//@ assigns counter
+
+//@ func (*Count).SetOverflow
+//@ prop C06 C10
+//@ ensures overflow: counter.Overflow() == overflow
+//@ ensures sqn: counter.SQN() == old(uint8(counter.count&0xff))
+//@ ensures get: counter.Get() == uint32(overflow)<<8|old(counter.count&0xff)
+//@ assigns counter
+
+//@ func (*Count).Set
+//@ prop C06 C10
+//@ ensures get: counter.Get() == uint32(overflow)<<8|uint32(sqn)
+//@ ensures sqn: counter.SQN() == sqn
+//@ ensures overflow: counter.Overflow() == overflow
+//@ assigns counter
+
+// ---- 128-NEA1 / 128-NIA1 / 128-NEA2 / 128-NIA2 against /verif/spec/nasalg ----
+
+//@ func mulx
+//@ prop C07
+//@ ensures spec: result == nasalg.MULx64(V, c)
+
+//@ func mulxPow
+//@ prop C07
+//@ requires small: i <= 64
+//@ ensures spec: result == nasalg.MULxPOW64(V, int(i), c)
+
+//@ func mul
+//@ prop C07
+//@ ensures spec: result == nasalg.MUL64(V, P, c)
+//@ loop i unroll 64
+
+//@ func NEA1
+//@ prop C07
+//@ opaque snow3gspec.S1 snow3gspec.S2 snow3gspec.MULa snow3gspec.DIVa snow3gspec.Init snow3gspec.Step snow3gspec.Out snow3gspec.Iter
+//@ requires len: len(ibs) >= 1 && len(ibs) < 1<<28 && length == uint32(len(ibs))*8
+//@ requires dom: bearer <= 31 && direction <= 1
+//@ ensures ok: err == nil && len(obs) == len(ibs)
+//@ ensures head: vc.Forall(0, 4*(len(ibs)/4), func(j int) bool { return obs[j] == ibs[j]^nasalg.EEA1KeystreamByte(ck, countC, bearer, direction, j) })
+//@ ensures tail: vc.Forall(4*(len(ibs)/4), len(ibs), func(j int) bool { return obs[j] == ibs[j]^nasalg.EEA1KeystreamByte(ck, countC, bearer, direction, j) })
+//@ ensures keystream: vc.Forall(0, len(ibs), func(j int) bool { return obs[j] == ibs[j]^nasalg.EEA1KeystreamByte(ck, countC, bearer, direction, j) })
+//@ assigns global free5gclib/nas/security/snow3g.lfsr free5gclib/nas/security/snow3g.fsm
+//@ loop i#1 unroll 4
+//@ loop j#1 unroll 4
+//@ loop j#2 unroll 4
+//@ loop i#2 invariant range (i uint32, length uint32): i <= length/32
+//@ loop i#2 invariant done (i uint32, obs []byte, ibs []byte, ck [16]byte, countC uint32, bearer uint32, direction uint32): len(obs) == len(ibs) && vc.Forall(0, 4*int(i), func(t int) bool { return obs[t] == ibs[t]^nasalg.EEA1KeystreamByte(ck, countC, bearer, direction, t) })
